@@ -62,7 +62,9 @@ class DM14Server:
         ):
             self._ca.unsubscribe(self._parse_dm16)
             self._send_dm16()
-            if (len(self.data)) <= 8:
+            if (len(self.data)) <= 7:
+                # the DM16 fitted into a single frame (length byte + up to 7 data bytes); a longer one travels via
+                # the transport protocol and is followed by the operation complete once it has been acknowledged
                 self.proceed = True
                 self.state = ResponseState.SEND_OPERATION_COMPLETE
                 self._ca.subscribe(self.parse_dm14)
@@ -236,7 +238,7 @@ class DM14Server:
             data.append(self.data[i])
 
         data.extend([0xFF] * (self.length - byte_count - 1))
-        if byte_count > 8:
+        if byte_count > 7:
             self._ca.subscribe(self._parse_dm16)
         self._ca.send_pgn(0, (self._pgn >> 8) & 0xFF, self.sa & 0xFF, 7, data)
 
